@@ -379,7 +379,7 @@ def prodCount : List Nat → Nat → Option Nat
   | [], count => some count
   | fs :: rest, count =>
     if fs = 0 then none
-    else if SET_INFINITY / fs > count then prodCount rest (count * fs)
+    else if SET_INFINITY / fs ≥ count then prodCount rest (count * fs)
     else prodCount rest SET_INFINITY
 
 mutual
